@@ -654,3 +654,6 @@ M('cache-slot-wrong-format', ['C10'], FR, "                self.__ro_rgb = new\n
 M('facets-D40-shape-plain-default', ['C18'], LN, "        fields.append((k, type(v), field(default_factory=lambda v=v: v)))  # a factory for every value: a plain default is refused for anything unhashable (set, numpy array, ...)", "        fields.append((k, type(v), field(default=v)))", ['C18.R7'])
 M('seed7-C18-terminal-from-heartbeat-facets', ['C18'], LN, "raw_data = self.facets if event_type == RunState.RUNNING else facets", "raw_data = facets if facets is not None else self.facets", ['C18.R7'])
 M('terminal-payload-test-inverted', ['C18'], LN, "raw_data = self.facets if event_type == RunState.RUNNING else facets", "raw_data = self.facets if event_type != RunState.RUNNING else facets", ['C18.R7'])
+
+M('frame-D41-shape-gray-label-on-colour', ['C10'], FR, "                elif format == 'GRAY':  # possibly inherited from the Frame passed as data\n                    raise ValueError('GRAY is not a format for a 3 channel image, specify RGB or BGR')\n", "", ['C10.R8'])
+M('frame-D41-shape-relabel-unchecked', ['C10'], FR, "            if shapef is not None and (self.__shapef[1] == 'GRAY') != (len(shapef[0]) == 2):  # relabelling does not convert pixels\n                raise ValueError(f'can not relabel a {shapef[1]} image as {self.__shapef[1]}, convert it')\n", "", ['C10.R8'])
